@@ -1,23 +1,29 @@
 //! mc-ledger — property group "ledger codecs and identities": C05..C08.
 
 pub mod artefacts;
+pub mod costmodels;
 pub mod gen_alonzo;
 pub mod gen_babbage;
 pub mod gen_byron;
 pub mod gen_common;
 pub mod gen_conway;
 pub mod gen_ledger;
+pub mod gen_plutus;
 pub mod locate;
 pub mod mutate;
 
 mod c05;
 mod c06;
+mod c07;
+mod c08;
 
 fn main() {
     let ctx = mc_core::Ctx::from_args();
     match ctx.prop.as_str() {
         "C05" => c05::run(ctx),
         "C06" => c06::run(ctx),
+        "C07" => c07::run(ctx),
+        "C08" => c08::run(ctx),
         p => mc_core::report::machinery_failure(&format!("mc-ledger does not serve {p}")),
     }
 }
